@@ -499,7 +499,9 @@ func (fc *FnCtx) lookupLocal(env *SpecEnv, name string) (TVal, bool) {
 					return TVal{T: fc.loadPtr(env.Cur, v.P), Ty: elem}, true
 				}
 				if isStruct(elem) {
-					return TVal{T: fc.loadStructRef(env.Cur, v.T, elem), Ty: elem}, true
+					// a struct variable held in memory: denote it by its address, so that
+					// field selections are locations (x.f reads through the heap either way)
+					return TVal{T: v.T, Ty: a.Type()}, true
 				}
 			}
 		}
@@ -884,6 +886,19 @@ func (env *SpecEnv) call(c SCall) TVal {
 			env.fail("fresh needs an old state")
 		}
 		return TVal{T: And(app(SBool, ">=", ref, fc.heapGet(env.Old, nextVar)), app(SBool, "<", ref, fc.heapGet(env.Cur, nextVar))), Ty: tBool}
+	case "loopfresh":
+		// allocated since the enclosing loop was entered
+		argN(1)
+		v := env.eval(c.Args[0])
+		ref := v.T
+		if v.T.Sort == "Slice" {
+			ref = app(SInt, "sl_arr", v.T)
+		}
+		lst := env.Named["loop"]
+		if lst == nil {
+			env.fail("loopfresh outside a loop")
+		}
+		return TVal{T: And(app(SBool, ">=", ref, fc.heapGet(lst, nextVar)), app(SBool, "<", ref, fc.heapGet(env.Cur, nextVar))), Ty: tBool}
 	case "arr":
 		argN(1)
 		v := env.eval(c.Args[0])
